@@ -66,6 +66,26 @@ READ_STEPS = {
 }
 
 
+# Driver.open / AsyncDriver.open (await removed): the channel (log) is opened right after the transport, BEFORE anything
+# that reads the channel — the in-channel logins and on_open
+OPEN_STEPS = {
+    "self._pre_open_closing_log(closing=False)": 1,
+    "self.transport.open()": 2,
+    "self.channel.open()": 3,
+    "if self.transport_name in ('system',) and (not self.auth_bypass):\n"
+    "    self.channel.channel_authenticate_ssh(auth_password=self.auth_password, "
+    "auth_private_key_passphrase=self.auth_private_key_passphrase)": 4,
+    "if 'telnet' in self.transport_name and (not self.auth_bypass):\n"
+    "    self.channel.channel_authenticate_telnet(auth_username=self.auth_username, auth_password=self.auth_password)": 5,
+    "if self.on_open:\n    self.on_open(self)": 6,
+    "self._post_open_closing_log(closing=False)": 7,
+}
+
+
+def open_steps(f):
+    return [OPEN_STEPS.get(ast.unparse(st).replace("await ", ""), 0) for st in _body_wo_doc(f)]
+
+
 def read_steps(f):
     out = []
     for st in _body_wo_doc(f):
@@ -202,6 +222,20 @@ def generate(outdir):
         lines.append("Definition gen_templates_%s : list (str * nat) := [%s]." % (
             nm, "; ".join("(%s, %d%%nat)" % (cstr(t), n) for t, n in tl)))
         info["templates_" + nm] = tl
+    # 5b. Driver.open / AsyncDriver.open: statement order (channel.open() before the in-channel logins and on_open), and
+    # nothing in the driver modules reads the transport behind the channel's back
+    from scrapli.driver.base import async_driver, sync_driver
+    sdt, adt = ast.parse(inspect.getsource(sync_driver)), ast.parse(inspect.getsource(async_driver))
+    osync, oasync = _func(sdt, "Driver", "open"), _func(adt, "AsyncDriver", "open")
+    if not isinstance(oasync, ast.AsyncFunctionDef) or not isinstance(osync, ast.FunctionDef):
+        raise ValueError("open() kinds changed")
+    lines.append("Definition gen_open_steps_sync : list nat := [%s]%%nat." % "; ".join(map(str, open_steps(osync))))
+    lines.append("Definition gen_open_steps_async : list nat := [%s]%%nat." % "; ".join(map(str, open_steps(oasync))))
+    info["open_steps"] = [open_steps(osync), open_steps(oasync)]
+    for nm, t in (("sync", sdt), ("async", adt)):
+        sites = transport_read_sites(t)
+        lines.append("Definition gen_transport_read_sites_driver_%s : list str := [%s]." % (nm, "; ".join(cstr(s) for s in sites) or ""))
+        info["transport_read_sites_driver_" + nm] = sites
     # 6. defaults
     sig = inspect.signature(sl.enable_basic_logging)
     d = {k: v.default for k, v in sig.parameters.items()}
